@@ -26,6 +26,11 @@ func (i *IllegalParam) Cause() error {
 	return i.cause
 }
 
+// StackTrace 获取错误的堆栈信息(未记录堆栈), 实现 Traceable 接口以便通过 erro.Cause 追溯到原因
+func (i *IllegalParam) StackTrace() []Frame {
+	return nil
+}
+
 // NewIllegalParamError 创建参数异常
 // paramName 参数名
 // paramValue 参数值
